@@ -90,6 +90,10 @@ func main() {
 		seed, _ = strconv.Atoi(s)
 	}
 	eng, err := loadEngine(*repo, filepath.Join(*verifDir, "specs"))
+	if eng != nil {
+		eng.activeProp = *prop
+		eng.applyMode()
+	}
 	if err != nil {
 		fmt.Fprintf(os.Stderr, "govc: load failed: %v\n", err)
 		// a tree that does not build cannot be verified: report as violation of the requested property
